@@ -186,6 +186,7 @@ impl DcpsDomainParticipant {
 
             dw.unregister_w_timestamp(
                 &dynamic_data,
+                None,
                 &BuiltInKeyHolder::TYPE,
                 timestamp,
                 self.transport.message_writer.as_ref(),
@@ -591,6 +592,7 @@ impl DcpsDomainParticipant {
 
             dw.unregister_w_timestamp(
                 &dynamic_data,
+                None,
                 &BuiltInKeyHolder::TYPE,
                 timestamp,
                 self.transport.message_writer.as_ref(),
@@ -733,6 +735,7 @@ impl DcpsDomainParticipant {
 
             dw.unregister_w_timestamp(
                 &dynamic_data,
+                None,
                 &BuiltInKeyHolder::TYPE,
                 timestamp,
                 self.transport.message_writer.as_ref(),
